@@ -1,6 +1,6 @@
 //! Verification-only entry points, compiled only with the cargo feature `astrolabe_verif`.
 #![allow(missing_docs)]
-use crate::DateTime;
+use crate::{local::timezone::TimeZone, DateTime};
 use std::cell::Cell;
 
 thread_local! {
@@ -14,4 +14,13 @@ pub fn set_cron_now(now: Option<DateTime>) {
 
 pub(crate) fn cron_now() -> Option<DateTime> {
     CRON_NOW.with(|c| c.get())
+}
+
+/// Parses TZif bytes and resolves the UTC offset for each Unix timestamp.
+pub fn tzif_offsets(bytes: &[u8], timestamps: &[i64]) -> Result<Vec<i32>, String> {
+    let tz = TimeZone::from_tzif(bytes).map_err(|e| e.to_string())?;
+    Ok(timestamps
+        .iter()
+        .map(|&t| tz.to_local_time_type(t).utoff)
+        .collect())
 }
